@@ -717,6 +717,8 @@ NewPP == [id |-> 95,
           g |-> [lanNone |-> 1]]
 EditApplicable(d, tok) == CASE tok = "remove_obstacle" -> d.obstacles # <<>>
                             [] tok = "light_offset" -> d.lights # <<>>
+                            \* StopLine.translate_rotate raises for a stop line without points (observed; belongs to C05, not asserted here)
+                            [] tok = "translate" -> \A i \in DOMAIN d.lanelets : \A j \in DOMAIN d.lanelets[i].stop : d.lanelets[i].stop[j].pts = 1
                             [] OTHER -> tok \in Range(EditTokens)
 Edit(d, tok) ==
   CASE tok = "add_network" -> [d EXCEPT !.lanelets = SortById(@ \o <<NewLanelet>>), !.signs = SortById(@ \o <<NewSign(d.hdr.cid)>>),
